@@ -2573,6 +2573,14 @@ func (r *Runtime) runWrapped(f func()) (err error) {
 		err = ex
 	}
 	if len(r.vm.callStack) == 0 {
+		// the queued jobs run inside this outermost activation (as they do in RunProgram): an entry made by a native
+		// job handler is a nested one, it must neither run the job queue itself nor consume an interrupt
+		r.vm.callStack = append(r.vm.callStack, context{})
+		r.vm.vt("CtxAdj", "top")
+		defer func() {
+			r.vm.callStack = r.vm.callStack[:0]
+			r.vm.vt("CtxAdj", "top")
+		}()
 		r.leave()
 	} else {
 		r.vm.clearStack()
